@@ -165,7 +165,7 @@ def run(ctx):
             key = (where, state, chain_o)
             distinct.setdefault(key, (sq, ok, why, root))
             seen_src_sites.add(where.split(" in ")[0])
-        for (where, state, chain_o), (sq, ok, why, root) in sorted(distinct.items()):
+        for (where, state, chain_o), (sq, ok, why, root) in sorted(distinct.items(), key=lambda kv: repr(kv[0])):
             fn = where.split(" in ")[1]
             slot = "%s|%s|%s" % (shell, fn, sq.rsplit("::", 1)[1])
             chain_s = " ".join("%r->%r" % (p, r_) for p, r_ in chain_o) or "(none)"
